@@ -38,12 +38,32 @@ def run(ctx):
     R1 = "C11.R1"
     run.rule(R1, "sender-side verifier: Ok needs every comparison and the signature check", floor=8)
     f = ctx.fn(VSPP)
+
+    def _stored_proof(fn_, o):
+        """origin set o derives from TxLogEntry.payment_proof - read directly, or inside a closure handed to an
+        Option / iterator adaptor (`entries.iter().find(..).and_then(|t| t.payment_proof.clone())`)"""
+        TLE_ = c.LW + "types::TxLogEntry"
+        if vf.has_field(o, TLE_, "payment_proof"):
+            return True
+        for x in o:
+            if x[0] in ("call", "mutcall") and len(x) > 2:
+                t_ = fn_.bbs[x[2]]["t"]
+                for a_ in t_["a"][1:]:
+                    pl_ = vf.op_place(a_)
+                    for bb_ in fn_.bbs:
+                        for st_ in bb_["s"]:
+                            if st_["k"] == "a" and pl_ and st_["d"] == [pl_[0], []] and st_["r"]["k"] == "agg" and st_["r"].get("ak") == "closure":
+                                g_ = db.fns.get(st_["r"]["adt"])
+                                if g_ and '"n": "payment_proof", "a": "%s"' % TLE_ in __import__("json").dumps(g_.bbs):
+                                    return True
+        return False
+
     if f:
         fl = vf.get_flow(f)
         errs = cfg.error_return_blocks(f)
         rets = cfg.return_blocks(f)
         # (a) stored proof present and slate proof absent -> Err
-        is_some = [(b, t) for b, t in cfg.find_calls(f, "core::option::Option::<T>::is_some") if vf.has_field(vf.origins(f, t["a"][0]), c.LW + "types::TxLogEntry", "payment_proof")]
+        is_some = [(b, t) for b, t in cfg.find_calls(f, "core::option::Option::<T>::is_some") if _stored_proof(f, vf.origins(f, t["a"][0]))]
         is_none = [(b, t) for b, t in cfg.find_calls(f, "core::option::Option::<T>::is_none") if vf.has_field(vf.origins(f, t["a"][0]), c.LW + "slate::Slate", "payment_proof")]
         if len(is_some) != 1 or len(is_none) != 1:
             run.error("C11.R1: proof-presence tests not found in verify_slate_payment_proof (%d, %d)" % (len(is_some), len(is_none)))
@@ -96,7 +116,7 @@ def run(ctx):
                         if d[0] == "a" and d[3]["r"]["k"] == "disc":
                             pl = d[3]["r"]["p"]
                             o = fl.of_place(pl)
-                            if vf.has_field(o, c.LW + "types::TxLogEntry", "payment_proof") and not pl[1]:
+                            if _stored_proof(f, o) and not pl[1]:
                                 e |= {(b, tb) for v, tb in t["t"] if v == "1"}
             need(e, "stored proof request present (match orig_proof_info Some)")
             e = set()
@@ -402,6 +422,33 @@ def run(ctx):
             run.instance(R8, {"fn": pp.short(fid), "obligation": "account of the sender's proof key comes from the transaction's record", "source": why, "site": c.site_of(f, b)}, held=ok)
             if not ok:
                 run.finding(Finding(R8, fid, "the sender's proof key is derived from %s instead of the transaction's own account: for a send from a non-active account the stored sender address/signature do not match the slate and the exported proof does not verify" % why.split(" (passed")[0], site=c.site_of(f, b), detail=why))
+    R9 = "C11.R9"
+    run.rule(R9, "the amount an exported proof states is recomputed from the sent entry (debited - credited - fee): the entry is booked with the sums of the inputs locked and of the change outputs created", floor=2)
+    from .C04 import sent_entry_figures
+    lk9 = ctx.fn(SEL + "lock_tx_context")
+    if lk9 is None:
+        run.error("C11.R9: lock_tx_context not found")
+    else:
+        sent_entry_figures(ctx, R9, lk9)
+    R10 = "C11.R10"
+    run.rule(R10, "the proof expectation is read from the sender's own entry: verify_slate_payment_proof selects the TxSent entry of the slate (a self-send has a TxReceived entry under the same slate id, which never carries proof info)", floor=1)
+    vsp = ctx.fn(TX + "verify_slate_payment_proof")
+    if vsp is None:
+        run.error("C11.R10: verify_slate_payment_proof not found")
+    else:
+        TLT10 = c.LW + "types::TxLogEntryType"
+        tied = False
+        for g in [vsp] + [db.fns[k] for k in db.closures_of(vsp.id)]:
+            for x in cfg.comparisons(g):
+                if x.op != "Eq":
+                    continue
+                pl, pr = vf.producers(g, x.l) | vf.get_flow(g).of_operand(x.l), vf.producers(g, x.r) | vf.get_flow(g).of_operand(x.r)
+                for a, b_ in ((pl, pr), (pr, pl)):
+                    if vf.has_field(a, c.LW + "types::TxLogEntry", "tx_type") and ("agg", TLT10, "TxSent") in b_:
+                        tied = True
+        run.instance(R10, {"fn": "verify_slate_payment_proof", "obligation": "the entry whose payment_proof is the expectation is selected by tx_type == TxSent"}, held=tied)
+        if not tied:
+            run.finding(Finding(R10, vsp.id, "the expected proof is read from the first log entry of the slate whatever its type: for a self-send inside one account that is the TxReceived entry, so an honest reply is refused and the same reply with the proof stripped is finalized", site=vsp.loc()))
     run.not_decided += ["unforgeability of ed25519", "the amount arithmetic in retrieve_payment_proof", "that the exported proof *verifies* (value-level)"]
 
 
